@@ -5,7 +5,7 @@ import threading
 
 from harness import common, gen, codec, engine, streams, sigs, wire
 from pyasn1 import debug, error
-from pyasn1.type import base as pbase, univ
+from pyasn1.type import base as pbase, univ, tag
 
 
 def shape(obj, depth=0):
@@ -935,6 +935,21 @@ def check_unprintable_values_with_logging(rep):
               ('OCTET STRING (utf-8) that is not utf-8', univ.OctetString(b'\xff\xfe', encoding='utf-8')),
               ('record holding both', rec), ('SEQUENCE OF huge INTEGER', univ.SequenceOf(componentType=univ.Integer()).clone())]
     values[-1][1].extend([big, 1])
+    # the guiding type itself holds unprintable value objects: DEFAULTs (the decoders print the type they are guided by)
+    dflt = univ.Sequence(componentType=namedtype.NamedTypes(
+        namedtype.NamedType('id', univ.Integer()),
+        namedtype.DefaultedNamedType('salt', univ.OctetString(b'\xff\xfe\x00\x80', encoding='utf-8')),
+        namedtype.DefaultedNamedType('blob', univ.Any(b'\x04\x02\xff\xfe', encoding='utf-8').subtype(
+            explicitTag=tag.Tag(tag.tagClassContext, tag.tagFormatConstructed, 1))),
+        namedtype.DefaultedNamedType('count', univ.Integer(big).subtype(implicitTag=tag.Tag(tag.tagClassContext, tag.tagFormatSimple, 2)))))
+    dv = dflt.clone()
+    dv['id'] = 7
+    values.append(('record whose DEFAULTs are unprintable', dv))
+    dv2 = dflt.clone()
+    dv2['id'] = 7
+    dv2['salt'] = b'ok'
+    dv2['count'] = 3
+    values.append(('record with unprintable DEFAULTs, members set', dv2))
     # deep nesting: more scope entries alive at once than any bound a logger might put on its bookkeeping
     deep_t = univ.Integer()
     for _ in range(24):
